@@ -52,7 +52,7 @@ def _cmp(mode, x, val):
 # ---------------------------------------------------------------------------
 # live
 # ---------------------------------------------------------------------------
-def _check_H(ctx, H, held):
+def _check_H(ctx, H, held, follow=True):
     node, edge = H._node, H._edge
     nodes, edges = list(node), list(edge)
     ctx.require(eq_seq(held["nodes"], nodes), "held node view does not list the current nodes in order")
@@ -72,9 +72,22 @@ def _check_H(ctx, H, held):
     for k in (0, 1, 2):
         dk = {n: len([e for e in node[n] if len(edge[e]) == k + 1]) for n in nodes}
         ctx.require(nets.same(held["degree_k"][k].asdict(), dk), "degree(order=k) differs from its definition")
+    ctx.require(nets.same(held["nodes"].memberships(), {n: set(node[n]) for n in nodes}), "held node view reports stale memberships")
+    ctx.require(nets.same(held["edges"].members(dtype=dict), {e: set(edge[e]) for e in edges}), "held edge view reports stale members")
+    if not follow:
+        return
+    # the held views keep following the network through one more addition
+    x, i = ctx.fresh("x"), ctx.fresh("i")
+    ctx.assume(*[x != n for n in nodes], *[i != e for e in edges if nets.intlike(e)])
+    try:
+        H.add_node(x)
+        H.add_edge([x], idx=i)
+    except Exception:
+        return
+    _check_H(ctx, H, held, follow=False)
 
 
-def _check_D(ctx, D, held):
+def _check_D(ctx, D, held, follow=True):
     node, edge = D._node, D._edge
     nodes, edges = list(node), list(edge)
     ctx.require(eq_seq(held["nodes"], nodes), "held node view does not list the current nodes in order")
@@ -102,6 +115,18 @@ def _check_D(ctx, D, held):
         ctx.require(nets.same(held["in_degree_k"][k].asdict(), {n: len([e for e in node[n]["in"] if okk(e)]) for n in nodes}), "in_degree(order=k) differs from its definition")
         ctx.require(nets.same(held["out_degree_k"][k].asdict(), {n: len([e for e in node[n]["out"] if okk(e)]) for n in nodes}), "out_degree(order=k) differs from its definition")
         ctx.require(nets.same(held["degree_k"][k].asdict(), {n: len([e for e in node[n]["in"] | node[n]["out"] if okk(e)]) for n in nodes}), "degree(order=k) differs from its definition")
+    ctx.require(nets.same(held["nodes"].dimemberships(), {n: (set(node[n]["in"]), set(node[n]["out"])) for n in nodes}), "held node view reports stale memberships")
+    ctx.require(nets.same(held["edges"].dimembers(dtype=dict), {e: (set(edge[e]["in"]), set(edge[e]["out"])) for e in edges}), "held edge view reports stale members")
+    if not follow:
+        return
+    x, i = ctx.fresh("x"), ctx.fresh("i")
+    ctx.assume(*[x != n for n in nodes], *[i != e for e in edges if nets.intlike(e)])
+    try:
+        D.add_node(x)
+        D.add_edge(([x], [x]), idx=i)
+    except Exception:
+        return
+    _check_D(ctx, D, held, follow=False)
 
 
 @harness("C06.live")
